@@ -19,6 +19,7 @@ CLAIMED = {
     "C12": ("JSON scalars convert to the same CelValue as direct binding (Kani). VM side (mirsym): an identifier operand resolves to a type name, then a bound variable, then a stored program run on the same interpreter, else an unbound-name failure; in call position a bound function wins over a macro over a type constructor, arguments keep source order, bytecode arguments are evaluated for functions and passed unevaluated to macros; a map field wins over a method; the call-depth counter is incremented on entry, bounds the depth (must run at depth <= 16, must fail beyond 128) and is restored on every exit path. Re-binding, re-adding programs and depth through macro bodies are outside.", "3/C12", "both"),
     "C14": ("Scalar conversions through construct_type for all payloads: int/uint/double/bool/dyn/type, range errors instead of wrapped values, truncation toward zero with saturation, type(T(x)) == T, bytes<->string on <= 2 bytes (Kani); FmtString(n) concatenates its n string segments in source order and fails on a non-string segment (mirsym). String<->number round trips and the f-string lowering in the compiler are outside.", "3/C14", "both"),
     "C13": ("The tokenizer on literals that make up the whole input: decimal and hexadecimal integers with and without u (1..=4 characters of any printable ASCII after a leading digit, 0x + up to 3 more, the 10000 literals around u64::MAX) carry exactly the value their digits spell or are rejected when it does not fit 64 bits; doubles are parsed from exactly their own text; quoted strings of up to 3 arbitrary characters, \\xHH, \\uHHHH, \\UHHHHHHHH, three-digit octal and the single-character escapes yield exactly the characters they spell, malformed digits and invalid code points are rejected. The int64 narrowing in the parser, raw/bytes/f-strings, longer texts and the correct rounding of doubles (std) are outside.", "3/C13", "mirsym"),
+    "C17": ("Last sentence only: filtering the reported names against a binding set removes exactly the names that set binds as variables, functions or macros (IdentFilterIter::next and BindContext::is_bound, for every sequence of up to 3 names and every binding set). That the compiler reports every identifier a program can read - the body of the property - is outside.", "3/C17", "mirsym"),
     "C18": ("Token spans only: for every literal the tokenizer targets of C13 explore, the token's span starts at (0,0) and ends at the (line, column) reached by counting characters and restarting the column after each newline. Syntax-tree spans, nesting, sibling disjointness and error locations are produced by the parser and are outside.", "3/C18", "mirsym"),
     "C19": ("Variant tags of the serde derives: for CelValue, CelError, ByteCode and JmpWhen every variant that Serialize writes - with its index tag (bincode) and its name tag (JSON) - is selected again by Deserialize's visit_u64 / visit_str, for all variants, all u64 tags and all strings; only variants no compiled program can contain may be refused. Payload encodings (millisecond timestamps/durations, nested containers), Program/ProgramDetails structs and the bindings' entry points are outside.", "3/C19", "mirsym"),
     "C15": ("Math family through the dispatch entry points for all payloads: abs, sqrt, ceil/floor/round, lg/log (error instead of panic outside the domain), pow exponent validity (all values) and exact value on bounded bases/exponents. String/regex family is outside.", "3/C15", "kani"),
@@ -29,7 +30,6 @@ NA = {
     "C02": "parser precedence/associativity: the recursive-descent parser cannot be executed symbolically by either engine (Kani: HashMap/SipHash, boxed AST, ICE on regex-automata; mirsym: 1400 lines of parser MIR driving a tokenizer over std string routines with no summaries); the one VM-side anchor (operand order on the stack) is decided under C03/C04.",
     "C09": "needs the compiler's constant folder (compile! macro, check_for_const) side by side with the VM on the same expression; the compiler is not encodable by either engine. The shared value operations are decided under C03-C06 and the VM's use of them under the vm_* targets.",
     "C11": "operation histories over HashMap-backed contexts and threads; Kani does not model threads, and HashMap iteration order (RandomState) is exactly what is intractable. mirsym shows for the macros that evaluation happens on clones of the caller's contexts (C07) but histories of the public API are not explored.",
-    "C17": "ProgramDetails (HashSet<String>) is produced only by the compiler, which is out of reach of both engines.",
     "C20": "translation walks the parser's boxed AST, which cannot be built without the parser; string formatting is the subject.",
 }
 
